@@ -211,7 +211,7 @@ def check(ctx):
     C02 = importlib.import_module("props.C02"); C15 = importlib.import_module("props.C15")
     class Ring(util.PrefixedCtx):
         def ob(self, rule, key, ok, site="", detail="", nontrivial=True, undecided=False):
-            if rule in ("R02.1", "R02.2", "R02.3", "R02.4"):      # (R02.4: the full-sync free list is serialised by one lock, released exactly once per acquisition) return super().ob(rule, key, ok, site, detail, nontrivial, undecided)
+            if rule in ("R02.1", "R02.2", "R02.3", "R02.4"): return super().ob(rule, key, ok, site, detail, nontrivial, undecided)      # (R02.4: the full-sync free list is serialised by one lock, released exactly once per acquisition)
             if rule in ("R15.1", "R15.2", "R15.3") and ("atomic_move" in key or "full_sync_move" in key or "ogre_array_pool_allocator" in key): return super().ob(rule, key, ok, site, detail, nontrivial, undecided)
             return ok
     C02.check(Ring(ctx, "R13.4")); C15.check(Ring(ctx, "R13.4"))
